@@ -57,6 +57,11 @@ def make_molecule(rng):
     atnums = rng.integers(1, 119, size=natom)
     mag = float(rng.choice([1.0, 10.0, 100.0, 500.0]))
     atcoords = rng.uniform(-mag, mag, size=(natom, 3)) * units.angstrom
+    lay = int(rng.integers(0, 6))
+    if lay == 0:
+        atcoords = np.asfortranarray(atcoords)
+    elif lay == 1:
+        atcoords.setflags(write=False)  # read-only coordinates (rendering must not need to write into them)
     kw = {"atnums": atnums, "atcoords": atcoords}
     charge_class = str(rng.choice(["absent", "int", "frac", "mo"]))
     spin_class = str(rng.choice(["absent", "int", "frac"]))
